@@ -37,6 +37,54 @@ class Obj:
         return f"Obj({self.attrs})"
 
 
+class LineStream:
+    """An open text file as the readers see it: iterating consumes lines, a second loop continues where the first one stopped;
+    `read()` returns what is left."""
+
+    def __init__(self, lines):
+        self.lines, self.pos = list(lines), 0
+
+    def __iter__(self):
+        return self
+
+    def __next__(self):
+        if self.pos >= len(self.lines):
+            raise StopIteration
+        self.pos += 1
+        return self.lines[self.pos - 1]
+
+    def read(self):
+        out = "".join(self.lines[self.pos:])
+        self.pos = len(self.lines)
+        return out
+
+    def readline(self):
+        try:
+            return next(self)
+        except StopIteration:
+            return ""
+
+
+_MODULES = {}
+
+
+def _stdlib(name):
+    """`re` and `math` of the standard library (not code of the analysed repository): a whitelist of their functions may be called."""
+    if not _MODULES:
+        import math
+        import re
+        _MODULES.update({"re": (re, {"compile", "match", "search", "fullmatch", "sub", "split", "findall", "finditer", "escape", "VERBOSE", "X", "I",
+                                     "IGNORECASE", "M", "MULTILINE", "S", "DOTALL"}),
+                         "math": (math, {"log", "log10", "log2", "log1p", "exp", "sqrt", "floor", "ceil", "e", "pi", "inf", "nan", "isnan", "isinf",
+                                         "isfinite", "fabs", "pow", "trunc"})})
+    return _MODULES.get(name)
+
+
+class _Module:
+    def __init__(self, mod, allowed):
+        self.mod, self.allowed = mod, allowed
+
+
 class Closure:
     def __init__(self, node, env, interp):
         self.node, self.env, self.interp = node, env, interp
@@ -147,6 +195,8 @@ class PyInterp:
                 return env[e.id]
             if e.id in ("True", "False", "None"):
                 return {"True": True, "False": False, "None": None}[e.id]
+            if _stdlib(e.id) is not None:
+                return _Module(*_stdlib(e.id))
             if e.id in ("int", "str", "float", "bool", "list", "dict", "tuple", "set"):
                 return {"int": int, "str": str, "float": float, "bool": bool, "list": list, "dict": dict, "tuple": tuple, "set": set}[e.id]
             raise NotEvaluable(f"unbound name {e.id}")
@@ -155,7 +205,18 @@ class PyInterp:
             if isinstance(base, Obj):
                 if e.attr in base.attrs:
                     return base.attrs[e.attr]
+                cls = base.__dict__.get("cls")
+                if cls is not None:
+                    # a read-only property of a plain class of the module
+                    fn = next((st for st in cls.body if isinstance(st, ast.FunctionDef) and st.name == e.attr
+                               and any(isinstance(d, ast.Name) and d.id == "property" for d in st.decorator_list)), None)
+                    if fn is not None:
+                        return self.call_function(fn, [base], {})
                 raise NotEvaluable(f"attribute {e.attr} of the object is not modelled")
+            if isinstance(base, _Module):
+                if e.attr in base.allowed:
+                    return getattr(base.mod, e.attr)
+                raise NotEvaluable(f"`{u(e)[:40]}` is not on the whitelist")
             raise NotEvaluable(f"attribute `{u(e)[:40]}`")
         if isinstance(e, (ast.Tuple, ast.List, ast.Set)):
             out = []
@@ -304,6 +365,8 @@ class PyInterp:
         raise NotEvaluable(type(e).__name__)
 
     def _iterate(self, v):
+        if isinstance(v, LineStream):
+            return v  # (consumed lazily: a later loop continues after the line this one stopped at)
         if isinstance(v, dict):
             return list(v.keys())
         if isinstance(v, (list, tuple, set, frozenset, range, str)):
@@ -351,7 +414,7 @@ class PyInterp:
         if isinstance(f, ast.Name):
             if f.id in env and callable(env[f.id]):
                 args, kwargs = self._args(c, env)
-                return env[f.id](*args, **kwargs)
+                return self._host_call(env[f.id], args, kwargs)
             b = self._builtin(f.id)
             if b is not None:
                 args, kwargs = self._args(c, env)
@@ -388,13 +451,39 @@ class PyInterp:
                     return self.call_function(fn, [base] + args, kwargs)
             if isinstance(base, Obj) and meth in base.attrs and callable(base.attrs[meth]):
                 args, kwargs = self._args(c, env)
-                return base.attrs[meth](*args, **kwargs)
+                return self._host_call(base.attrs[meth], args, kwargs)
+            if isinstance(base, _Module):
+                if meth not in base.allowed:
+                    raise NotEvaluable(f"`{u(f)[:40]}` is not on the whitelist")
+                args, kwargs = self._args(c, env)
+                return self._host_call(getattr(base.mod, meth), args, kwargs)
+            import re as _re
+            if isinstance(base, _re.Pattern) and meth in ("match", "search", "fullmatch", "findall", "finditer", "sub", "split"):
+                args, kwargs = self._args(c, env)
+                out = self._host_call(getattr(base, meth), args, kwargs)
+                return list(out) if meth == "finditer" else out
+            if isinstance(base, _re.Match) and meth in ("group", "groups", "span", "start", "end", "groupdict"):
+                args, kwargs = self._args(c, env)
+                return self._host_call(getattr(base, meth), args, kwargs)
+            if isinstance(base, LineStream) and meth in ("read", "readline"):
+                return getattr(base, meth)()
             raise NotEvaluable(f"call of `{u(f)[:40]}`")
         fv = self.eval(f, env)
         if callable(fv):
             args, kwargs = self._args(c, env)
-            return fv(*args, **kwargs)
+            return self._host_call(fv, args, kwargs)
         raise NotEvaluable("call")
+
+    @staticmethod
+    def _host_call(fn, args, kwargs):
+        """A call of a host-side callable (a closure of the interpreter, a whitelisted standard-library function, `float`): what it raises
+        is raised in the interpreted program."""
+        try:
+            return fn(*args, **kwargs)
+        except (Raised, NotEvaluable, _Return, _Break, _Continue):
+            raise
+        except (ValueError, TypeError, KeyError, IndexError, ZeroDivisionError, AttributeError, OverflowError) as ex:
+            raise Raised(type(ex).__name__)
 
     def call_function(self, fn, args: list, kwargs: dict):
         if self.depth > 12:
